@@ -46,7 +46,7 @@ def rule_queue(ctx, R):
         if i in ctrl_region or i in refuse:
             continue
         cal = callee(t)
-        short = cal.split("::")[-1] if cal.split("::")[-1] != "with_connection" or not t["clos"] else "with_connection:" + t["clos"][0].replace(PF + "::", "")
+        short = shared.site_name(ctx, t)
         if cal == ENGINE + "nothing":
             continue
         n += 1
